@@ -608,8 +608,9 @@ func (root *Root) resolveField(
 			var fv interface{} // field value
 			var av *ArgValue
 
-			for _, av = range field.Args {
-				if av.Arg == nameStr {
+			for _, a := range field.Args {
+				if a.Arg == nameStr {
+					av = a
 					break
 				}
 			}
@@ -623,7 +624,12 @@ func (root *Root) resolveField(
 					nv = av.Value
 				}
 				name, _ := nv.(string)
-				t = root.GetType(name)
+				// (a type, not a directive that has that name and not the
+				// schema block, which is kept in the type list)
+				t = root.types.get(name)
+				if _, ok := t.(*Schema); ok {
+					t = nil
+				}
 				if t != nil {
 					fv, ea2 = root.resolve(t, vars, field, root.GetType("__Type"), depth)
 					ea = append(ea, ea2...)
